@@ -516,6 +516,10 @@ def gen_c12_pool(r, deep=0):
     ex["o4"] = ["chain", "+", [["*", r.choice(pl), L(n)] for n in e] + [["num", 1.0]]]  # linear in x with parameter coefficients
     f = pick(2)
     ex["o5"] = ["+", ["*", ["*", r.choice(pl), L(f[0])], L(f[-1])], sq_sum(f, True)]  # cross term coefficient
+    f2 = pick(3)
+    ex["oa"] = ["chain", "+", [["*", ["*", r.choice(pl), L(f2[0])], L(f2[1 % len(f2)])], ["*", ["*", L(f2[-1]), r.choice(pl)], L(f2[0])],
+                               ["**", ["-", L(f2[0]), ["num", 1.0]], ["num", 2]]]]  # two parameter-weighted bilinear terms
+    sp["hess_pref"] = ["o5", "oa", "o2"]
     # constraint bodies (also compiled directly through handles)
     g = pick(2)
     ex["g0"] = ["-", render_linear(r, sp, [(r.choice(POS), n) for n in g]), r.choice(pl)]
@@ -565,14 +569,20 @@ def _gen_order(r, sp, need):
 
 
 def gen_handle(r, sp, hid, enames):
-    kind = r.choice(["expr", "grad", "jac", "hess", "cexpr", "dictfn", "symgrad", "jac", "hess", "grad"])
+    kind = r.choice(["expr", "grad", "jac", "hess", "cexpr", "dictfn", "symgrad", "jac", "hess", "grad", "hess", "jac"])
+    if sp.get("params") and r.random() < 0.6:
+        # prefer expressions that actually contain a parameter
+        pe = [e for e in enames if S.params_in(sp["exprs"][e])]
+        enames = pe or enames
     if kind == "jac":
-        es = r.sample(enames, r.choice([1, 1, 2, 3]))
+        es = r.sample(enames, min(len(enames), r.choice([1, 1, 2, 3])))
         need = set()
         for e in es:
             need |= S.mentioned(sp, sp["exprs"][e])
         return ["compile", 0, hid, "jac", {"es": es, "order": _gen_order(r, sp, sorted(need, key=S.natural_key))}]
     e = r.choice(enames)
+    if kind == "hess" and sp.get("hess_pref") and r.random() < 0.5:
+        e = r.choice([h for h in sp["hess_pref"] if h in sp["exprs"]] or [e])
     need = sorted(S.mentioned(sp, sp["exprs"][e]), key=S.natural_key)
     a = {"e": e, "order": _gen_order(r, sp, need)}
     if kind == "symgrad":
@@ -698,13 +708,15 @@ def mutate_spec(r, sp):
 
     m = copy.deepcopy(sp)
     k = r.random()
-    if m["params"] and k < 0.5:
+    if m["params"] and r.random() < 0.85:
         for d in m["params"]:
             if d["kind"] == "scalar":
                 d["value"] = r.choice([v for v in PGRID if v != d["value"]])
             else:
                 d["values"] = [r.choice(PGRID) for _ in range(d["n"])]
-    elif k < 0.75:
+        if r.random() < 0.7:
+            return m
+    if k < 0.75:
         for d in m["vars"]:
             if d.get("domain", "continuous") == "binary":
                 continue
@@ -1419,3 +1431,56 @@ def c13_sweep_cases(tier):
                     continue
                 ops = [["new_model", 0, sp]] + [alpha[i] for i in seq]
                 yield f"{pool['name']}:" + ".".join(map(str, seq)), {"knobs": dict(DEFAULT_KNOBS), "ops": ops}
+
+
+def c06_sweep_cases(tier, c07=False):
+    """For seeded problems: EVERY (method, response class, x kind) of the scripted-peer table,
+    plus the SLSQP 'success with violated constraint' -> trust-constr retry crossed with every
+    trust-constr class."""
+    from .world import DEFAULT_KNOBS
+
+    nprob = 1 if tier == "quick" else 10
+    made = 0
+    i = 0
+    while made < nprob and i < 100:
+        r = random.Random(run_seed(606, "C06-sweep" + ("7" if c07 else ""), i))
+        i += 1
+        kinds = r.choice([("lin",), ("quad",), ("quad", "nl")])
+        sp, meta = gen_pool(r, kinds=kinds, nobj=2, ncon=4, layout=r.choice(["A", "B", "D"]))
+        ops0 = [["new_model", 0, sp], [r.choice(["minimize", "maximize"]), 0, r.choice(sorted(sp["exprs"]))]]
+        for c in r.sample(sorted(sp["cons"]), 2):
+            ops0.append(["subject_to", 0, c])
+        sh = _state_after(ops0)
+        lin = meta["okinds"][sh["objective"]] == "lin" and all(meta["ckinds"][c] in ("lin", "vec", "newvar") for c in sh["cons"])
+        names, pts = classify_points(r, sh)
+        if not pts["cviol"] or not pts["any"]:
+            continue
+        made += 1
+        tag0 = f"p{i - 1}"
+        if lin:
+            for meth in LP_METHODS + ["auto"]:
+                for cls in LP_CLASSES:
+                    for xk in (["real"] if cls[1] else ["none", "any", "real"]):
+                        peer = gen_peer(r, "lp", sh, lp=True, classes=[cls], xkinds=[xk])
+                        yield f"{tag0}:{meth}:{cls[0]}:{xk}", {"knobs": dict(DEFAULT_KNOBS), "ops": ops0 + [["solve", 0, {"method": meth, "peers": [peer]}]]}
+        for meth in NLP_CORE + NLP_MORE:
+            for cls in MIN_CLASSES.get(meth, _GENERIC):
+                for xk in ("real", "feas", "cviol", "bviol"):
+                    if xk == "bviol" and cls[1] and meth in BOUNDS_METHODS:
+                        continue  # SciPy never leaves the box it was given
+                    if xk != "real" and not pts[xk]:
+                        continue
+                    peer = gen_peer(r, meth, sh, classes=[cls], xkinds=[xk])
+                    yield f"{tag0}:{meth}:{cls[0]}:{xk}", {"knobs": dict(DEFAULT_KNOBS), "ops": ops0 + [["solve", 0, {"method": meth, "peers": [peer]}]]}
+        # retry path: SLSQP claims success at a violating point, then every trust-constr answer
+        first = gen_peer(r, "SLSQP", sh, classes=[MIN_CLASSES["SLSQP"][0]], xkinds=["cviol"])
+        for cls in MIN_CLASSES["trust-constr"]:
+            for xk in ("real", "feas", "cviol"):
+                if xk != "real" and not pts[xk]:
+                    continue
+                second = gen_peer(r, "trust-constr", sh, entry=1, classes=[cls], xkinds=[xk])
+                yield f"{tag0}:retry:{cls[0]}:{xk}", {"knobs": dict(DEFAULT_KNOBS), "ops": ops0 + [["solve", 0, {"method": "SLSQP", "peers": [first, second]}]]}
+
+
+def c07_sweep_cases(tier):
+    return c06_sweep_cases(tier, c07=True)
